@@ -289,7 +289,9 @@ class SupportedTypeUtils(object):
         module = t.__module__
         if module is None or module == str.__class__.__module__:
             return SupportedType(t.__name__)
-        return SupportedType(module + "." + t.__name__)
+        # The qualified name: two classes nested in different classes of one module may share their __name__
+        # (for a top-level class the two names are the same).
+        return SupportedType(module + "." + getattr(t, "__qualname__", t.__name__))
 
 
 class CanonicalPathUtils(object):
